@@ -382,6 +382,68 @@ def announcer_inside_the_same_call(res, ctx, rng):
                             return
 
 
+class BindingLog(dict):
+    """A process-name table (the caller's dict) that remembers which thread's record was being fed when a name was bound."""
+
+    def __init__(self):
+        super().__init__()
+        self.feeding = None
+        self.log = {}
+
+    def __setitem__(self, pid, name):
+        self.log.setdefault(self.feeding, []).append((pid, name))
+        super().__setitem__(pid, name)
+
+
+def same_pid_pairs(res, ctx, rng):
+    """Several threads announce THE SAME process: new-thread and exec record pairs of two or three threads all naming one
+    pid, under different names (threads of one process start threads and exec while the buffers are merged).  The final
+    table is then last-writer-wins by design; what each thread's OWN pair binds - (pid, name), in that thread's order - is
+    a function of that thread's records alone, under every interleaving."""
+    for it in range(ctx.pick(30, 600)):
+        pid = rng.choice((77, 0, 4242))
+        n = rng.choice((2, 2, 3))
+        tids = [0x1001 + k for k in range(n)]
+        programs = []
+        for k in range(n):
+            prog = []
+            for j in range(rng.choice((1, 1, 2))):
+                name = b'n%d-%d-%d' % (k, j, it)
+                prog += H.newthread_pair(0x9000 + 16 * k + j, pid, name, rng.choice((H.NONE, H.ALL))) if rng.random() < 0.5 \
+                    else H.exec_pair(pid, name, rng.choice((H.NONE, H.ALL)))
+            programs.append(prog)
+
+        def bindings(items):
+            table = BindingLog()
+            parser = ev.new_parser(pids_names=table)
+            for e in H.materialize(items):
+                table.feeding = e.tid
+                parser.feed(e)
+            return table.log
+        try:
+            base = {}
+            for tid, p in zip(tids, programs):
+                base[tid] = bindings(H.on_thread(tid, p)).get(tid, [])
+            orders = H.all_interleavings(programs) if H.count_interleavings([len(p) for p in programs]) <= 300 else \
+                [H.random_interleaving(rng, programs) for _ in range(120)]
+            for order in orders:
+                items = [(tids[t], programs[t][i]) for t, i in order]
+                got = bindings(items)
+                res.count('same_pid_pair_schedules')
+                res.case(('same-pid', it, tuple(order)))
+                for tid in tids:
+                    if got.get(tid, []) != base[tid]:
+                        res.violation('c05-learned-names', f'threads {[hex(t) for t in tids]} all announce pid {pid}: under the '
+                                      f'order {[t for t, _ in order]} the pairs of thread {hex(tid)} bound {got.get(tid, [])}, '
+                                      f'alone they bind {base[tid]}', {'programs': programs_case(programs, tids),
+                                                                        'order': [list(o) for o in order]})
+                        return
+        except Exception as x:
+            res.violation(f'c05-raises-{core.exc_name(x)}', f'threads announcing one pid: {x!r} at {core.short_tb(x)}',
+                          {'programs': programs_case(programs, tids)})
+            return
+
+
 def two_feeders(res, ctx, rng):
     """The merged capture as it really arrives: one buffer per CPU.  ONE parser is fed by one live feed_generator() per
     buffer and the results are taken in turns; threads migrate between the buffers.  Whatever order of consumption that
@@ -461,6 +523,7 @@ def run(ctx):
     census(res, ctx, rng)
     naming_pairs(res, ctx, rng)
     announcer_inside_the_same_call(res, ctx, rng)
+    same_pid_pairs(res, ctx, rng)
     two_feeders(res, ctx, rng)
     # many threads at once (tables that are capped, flushed in batches or keyed by a hash show only then)
     for _ in range(ctx.pick(3, 40)):
@@ -515,6 +578,7 @@ def run(ctx):
     res.require('schedules_through_a_dump', 20)
     res.require('census_schedules', 6000)
     res.require('naming_pair_schedules', 200)
+    res.require('same_pid_pair_schedules', 300)
     res.require('announcer_inside_the_same_call_schedules', 2000)
     res.require('captures_fed_by_several_live_feeders', 100)
     return res
